@@ -527,6 +527,9 @@ fn ctx_of(s: &str) -> Option<CommandContext> {
         ("action", 1) => CommandContext::Action(ActionContext { name: ident(0), head_id: CmdId::default() }),
         ("policy", 1) => CommandContext::Policy(pol(ident(0))),
         ("recall", 1) => CommandContext::Recall(pol(ident(0))),
+        ("action", 2) => CommandContext::Action(ActionContext { name: ident(p[1].parse().ok()?), head_id: CmdId::default() }),
+        ("policy", 2) => CommandContext::Policy(pol(ident(p[1].parse().ok()?))),
+        ("recall", 2) => CommandContext::Recall(pol(ident(p[1].parse().ok()?))),
         ("seal", 2) => CommandContext::Seal(SealContext { name: ident(p[1].parse().ok()?), head_id: CmdId::default() }),
         ("open", 2) => CommandContext::Open(OpenContext { name: ident(p[1].parse().ok()?) }),
         _ => return None,
@@ -1140,6 +1143,21 @@ fn parse_setup(lines: &[String], bt: &mut BytesTab) -> Result<Setup, String> {
                 }
                 s.machine.fact_defs.insert(FactDef { name, key: items[..nk].to_vec(), value: items[nk..].to_vec(), immutable: false });
             }
+            "label" if t.len() == 4 => {
+                let name = ident(t[1].parse().map_err(|_| bad())?);
+                let lt = label_type_of(t[2]).ok_or_else(bad)?;
+                s.machine.labels.insert(Label::new(name, lt), t[3].parse().map_err(|_| bad())?);
+            }
+            "adef" | "cdef" if t.len() >= 2 => {
+                let name = ident(t[1].parse().map_err(|_| bad())?);
+                let items: Option<Vec<Field>> = t[2..].iter().map(|f| field_of(f)).collect();
+                let items = items.ok_or_else(bad)?;
+                if t[0] == "adef" {
+                    s.machine.action_defs.insert(ActionDef { name, persistence: Persistence::Persistent, params: items, result_type: TypeKind::Unit });
+                } else {
+                    s.machine.command_defs.insert(CommandDef { name, persistence: Persistence::Persistent, attributes: vec![], fields: items });
+                }
+            }
             "glob" if t.len() == 3 => {
                 let v = value_of(t[2], bt).and_then(|v| const_of(&v)).ok_or_else(bad)?;
                 s.machine.globals.insert(ident(t[1].parse().map_err(|_| bad())?), v);
@@ -1461,11 +1479,274 @@ fn run_case(rec: &mut Recorder, setup_lines: &[String], steps: Steps, fdefs: &[(
     }
 }
 
-fn gen_setup(r: &mut Rng) -> (Vec<String>, Vec<(usize, Vec<(usize, TypeKind)>, Vec<(usize, TypeKind)>)>) {
+// ------------------------------------------------------------------ entry calls (setup_* / call_*)
+
+fn label_type_of(s: &str) -> Option<LabelType> {
+    Some(match s {
+        "Action" => LabelType::Action,
+        "CommandPolicy" => LabelType::CommandPolicy,
+        "CommandRecall" => LabelType::CommandRecall,
+        "CommandSeal" => LabelType::CommandSeal,
+        "CommandOpen" => LabelType::CommandOpen,
+        "Temporary" => LabelType::Temporary,
+        "Function" => LabelType::Function,
+        _ => return None,
+    })
+}
+
+#[derive(Clone)]
+enum EntryCall {
+    Action(Identifier, Vec<Value>),
+    Policy(Struct, Struct),
+    Seal(Struct, Vec<u8>),
+    Open(Struct, Vec<u8>, Struct),
+}
+
+fn enc_entry(e: &EntryCall, bt: &mut BytesTab) -> String {
+    match e {
+        EntryCall::Action(n, args) => {
+            let a: Vec<String> = args.iter().map(|v| enc_value(v, bt)).collect();
+            format!("action {} {} {}", ident_id(n), args.len(), a.join(" ")).trim_end().to_string()
+        }
+        EntryCall::Policy(t, e) => format!("policy {} {}", enc_value(&Value::Struct(t.clone()), bt), enc_value(&Value::Struct(e.clone()), bt)),
+        EntryCall::Seal(t, p) => format!("seal {} {}", enc_value(&Value::Struct(t.clone()), bt), enc_value(&Value::Bytes(p.clone()), bt)),
+        EntryCall::Open(t, p, e) => format!(
+            "open {} {} {}",
+            enc_value(&Value::Struct(t.clone()), bt),
+            enc_value(&Value::Bytes(p.clone()), bt),
+            enc_value(&Value::Struct(e.clone()), bt)
+        ),
+    }
+}
+
+fn entry_of(t: &[&str], bt: &mut BytesTab) -> Option<EntryCall> {
+    let st = |s: &str, bt: &mut BytesTab| match value_of(s, bt)? {
+        Value::Struct(s) => Some(s),
+        _ => None,
+    };
+    let by = |s: &str, bt: &mut BytesTab| match value_of(s, bt)? {
+        Value::Bytes(b) => Some(b),
+        _ => None,
+    };
+    Some(match (*t.first()?, t.len()) {
+        ("action", n) if n >= 3 => {
+            let cnt: usize = t[2].parse().ok()?;
+            if t.len() != 3 + cnt {
+                return None;
+            }
+            let args: Option<Vec<Value>> = t[3..].iter().map(|a| value_of(a, bt)).collect();
+            EntryCall::Action(ident(t[1].parse().ok()?), args?)
+        }
+        ("policy", 3) => EntryCall::Policy(st(t[1], bt)?, st(t[2], bt)?),
+        ("seal", 3) => EntryCall::Seal(st(t[1], bt)?, by(t[2], bt)?),
+        ("open", 4) => EntryCall::Open(st(t[1], bt)?, by(t[2], bt)?, st(t[3], bt)?),
+        _ => return None,
+    })
+}
+
+/// what `call_*` does before `self.run()`, re-enacted on a FRESH run state through the public
+/// API (`setup_action`, `setup_command`, `set_pc_by_label`, the `Stack` trait); returns whether
+/// the wrapper would go on to `run`
+fn emulate_enter(rs: &mut aranya_policy_vm::RunState<'_, AdvIo>, ctx: &CommandContext, e: &EntryCall) -> bool {
+    match e {
+        EntryCall::Action(name, args) => {
+            matches!(ctx, CommandContext::Action(c) if c.name == *name) && rs.setup_action(name.clone(), args.clone()).is_ok()
+        }
+        EntryCall::Policy(this, env) => {
+            matches!(ctx, CommandContext::Policy(c) if c.name == this.name)
+                && rs.setup_command(Label::new(this.name.clone(), LabelType::CommandPolicy), this.clone()).is_ok()
+                && rs.stack.push_value(Value::Struct(env.clone())).is_ok()
+        }
+        EntryCall::Seal(this, payload) => {
+            matches!(ctx, CommandContext::Seal(c) if c.name == this.name)
+                && rs.set_pc_by_label(&Label::new(this.name.clone(), LabelType::CommandSeal)).is_ok()
+                && rs.stack.push_value(Value::Struct(this.clone())).is_ok()
+                && rs.stack.push_value(Value::Bytes(payload.clone())).is_ok()
+        }
+        EntryCall::Open(this, payload, env) => {
+            matches!(ctx, CommandContext::Open(c) if c.name == this.name)
+                && rs.set_pc_by_label(&Label::new(this.name.clone(), LabelType::CommandOpen)).is_ok()
+                && rs.stack.push_value(Value::Struct(this.clone())).is_ok()
+                && rs.stack.push_value(Value::Bytes(payload.clone())).is_ok()
+                && rs.stack.push_value(Value::Struct(env.clone())).is_ok()
+        }
+    }
+}
+
+/// One entry-call case: the real `call_action` / `call_command_policy` / `call_seal` / `call_open`
+/// (which end in the unbounded `run()`) is only invoked after a budgeted single-step
+/// pre-simulation on a second fresh run state with the same scripted I/O has shown that the run
+/// ends; the I/O answers of that pre-simulation are replayed to the real call and sent to the model.
+fn run_entry_case(rec: &mut Recorder, setup_lines: &[String], entry_toks: &[String], steps: Steps, fdefs: &[(usize, Vec<(usize, TypeKind)>, Vec<(usize, TypeKind)>)]) {
+    rec.begin_case();
+    let mut bt = BytesTab::default();
+    let setup = match parse_setup(setup_lines, &mut bt) {
+        Ok(s) => s,
+        Err(e) => {
+            rec.notes.push(e);
+            return;
+        }
+    };
+    let Setup { ctx, machine, init } = setup;
+    let et: Vec<&str> = entry_toks.iter().map(|x| x.as_str()).collect();
+    let Some(entry) = entry_of(&et, &mut bt) else {
+        rec.notes.push(format!("bad entry `{}`", entry_toks.join(" ")));
+        return;
+    };
+    let mut io1 = AdvIo::default();
+    let mut io2 = AdvIo::default();
+    let mut rs1 = machine.create_run_state(&mut io1, ctx.clone());
+    let mut rs2 = machine.create_run_state(&mut io2, ctx.clone());
+    let mut k = 0;
+    for l in setup_lines {
+        if l.starts_with("push ") {
+            let r1 = rs1.stack.push_value(init[k].clone());
+            let _ = rs2.stack.push_value(init[k].clone());
+            k += 1;
+            rec.line(l.clone(), if r1.is_ok() { "ok".to_string() } else { "err StackOverflow".to_string() });
+        } else {
+            rec.line(l.clone(), "ok");
+        }
+    }
+    let kind = entry_toks[0].clone();
+    rec.count(&format!("entry:{kind}"));
+    // ---- pre-simulation
+    let entered = match vh::catch(AssertUnwindSafe(|| emulate_enter(&mut rs1, &ctx, &entry))) {
+        Ok(b) => b,
+        Err(msg) => {
+            rec.oracle_fail(format!("PANIC in setup of entry `{kind}`: {msg}"));
+            rec.panics.push(format!("entry setup {kind}: {msg}"));
+            return;
+        }
+    };
+    let (mut rng_opt, budget, replay) = match steps {
+        Steps::Gen(r, b) => (Some(r), b, vec![]),
+        Steps::Replay(v) => {
+            let n = v.len();
+            (None, n, v)
+        }
+    };
+    let mut groups: Vec<Vec<String>> = vec![];
+    let mut io_toks: Vec<String> = vec![];
+    let mut sim_outcome: Option<String> = None;
+    if entered {
+        let mut cur_ctx = ctx.clone();
+        for step in 0..budget {
+            let pc = rs1.pc();
+            let instr = machine.progmem.get(pc).cloned();
+            let top = rs1.stack.as_slice().last().cloned();
+            let (ans, mut toks) = match rng_opt.as_mut() {
+                Some(r) => gen_io(r, instr.as_ref(), fdefs, top.as_ref(), &mut bt),
+                None => {
+                    let t: Vec<&str> = replay[step].split(' ').filter(|x| !x.is_empty()).collect();
+                    match parse_io(&t, &mut bt) {
+                        Some(a) => (a, t.iter().filter(|x| !x.starts_with('C')).map(|x| x.to_string()).collect()),
+                        None => {
+                            rec.notes.push(format!("replay: bad io answers in `{}`", replay[step]));
+                            return;
+                        }
+                    }
+                }
+            };
+            io_toks.extend(toks.iter().cloned());
+            if let Some(c) = codec_token(&machine, &cur_ctx, instr.as_ref(), top.as_ref(), &mut bt, rec) {
+                toks.push(c);
+            }
+            groups.push(toks);
+            *rs1.io.script.borrow_mut() = ans.into();
+            let name = instr.as_ref().map(instr_name).unwrap_or_else(|| "<pc out of range>".into());
+            match vh::catch(AssertUnwindSafe(|| rs1.step())) {
+                Err(msg) => {
+                    rec.oracle_fail(format!("PANIC in RunState::step (entry `{kind}`) at pc={pc} on `{name}`: {msg}"));
+                    rec.panics.push(format!("entry {kind} step: pc={pc} instr={name}: {msg}"));
+                    return;
+                }
+                Ok(Ok(MachineStatus::Executing)) => {
+                    if matches!(instr, Some(Instruction::Recall(_))) {
+                        if let CommandContext::Policy(c) = &cur_ctx {
+                            cur_ctx = CommandContext::Recall(c.clone());
+                        }
+                    }
+                }
+                Ok(Ok(MachineStatus::Exited(r))) => {
+                    sim_outcome = Some(format!("exit {} pc={} sp={} top={}", enc_reason(&r), rs1.pc(), rs1.stack.len(), top_of(&rs1.stack)));
+                    break;
+                }
+                Ok(Err(e)) => {
+                    sim_outcome = Some(format!("err {} pc={} sp={}", err_class(&e.err_type), rs1.pc(), rs1.stack.len()));
+                    break;
+                }
+            }
+        }
+        if sim_outcome.is_none() {
+            // the run did not end within the budget: calling the real `run()` might never return
+            rec.count("entry:budget-exhausted(no real call)");
+            return;
+        }
+    }
+    // ---- the real entry call, with the same scripted I/O
+    let flat: Vec<&str> = io_toks.iter().map(|x| x.as_str()).collect();
+    let script = parse_io(&flat, &mut bt).unwrap_or_default();
+    *rs2.io.script.borrow_mut() = script.into();
+    let e2 = entry.clone();
+    let res = vh::catch(AssertUnwindSafe(|| match e2 {
+        EntryCall::Action(n, a) => rs2.call_action(n, a),
+        EntryCall::Policy(t, e) => rs2.call_command_policy(t, e),
+        EntryCall::Seal(t, p) => rs2.call_seal(t, p),
+        EntryCall::Open(t, p, e) => rs2.call_open(t, p, e),
+    }));
+    let mut req = format!("call {}", entry_toks.join(" "));
+    for g in &groups {
+        req.push_str(" S");
+        for t in g {
+            req.push(' ');
+            req.push_str(t);
+        }
+    }
+    let real = match res {
+        Err(msg) => {
+            rec.line(req, "panic");
+            rec.count("entry-outcome:PANIC");
+            rec.oracle_fail(format!("PANIC in call_{kind}: {msg}"));
+            rec.panics.push(format!("call_{kind}: {msg}"));
+            return;
+        }
+        Ok(Ok(r)) => format!("exit {} pc={} sp={} top={}", enc_reason(&r), rs2.pc(), rs2.stack.len(), top_of(&rs2.stack)),
+        Ok(Err(e)) => format!("err {} pc={} sp={}", err_class(&e.err_type), rs2.pc(), rs2.stack.len()),
+    };
+    let class: String = real.split(' ').take(2).collect::<Vec<_>>().join(" ");
+    rec.count(&format!("entry-outcome:{class}"));
+    rec.count(&format!("entry:{kind}:{}", if entered { "entered" } else { "rejected-by-wrapper" }));
+    if let Some(sim) = &sim_outcome {
+        if *sim != real {
+            rec.oracle_fail(format!("call_{kind} returned `{real}` but setup + single-stepping the same run gives `{sim}`"));
+        }
+    } else if !real.starts_with("err ") {
+        rec.oracle_fail(format!("call_{kind} returned `{real}` although its checks must reject the call"));
+    }
+    if entered && groups.len() >= 2 {
+        rec.nontrivial(fnv(&format!("{}|{req}", setup_lines.join("\n"))));
+    }
+    rec.line(req, real);
+}
+
+type FDefs = Vec<(usize, Vec<(usize, TypeKind)>, Vec<(usize, TypeKind)>)>;
+
+/// `entry`: generate an entry-call case (label table, action/command definitions, a `call` request)
+fn gen_setup(r: &mut Rng, entry: bool) -> (Vec<String>, FDefs, Option<Vec<String>>) {
     let mut bt = BytesTab::default();
     let mut lines = vec![];
-    let ctxs = ["action", "policy", "policy", "recall", "seal:0", "seal:1", "open:0", "open:1"];
-    lines.push(format!("new {}", r.pick(&ctxs)));
+    let ctxs = ["action", "policy", "policy", "recall", "seal:0", "seal:1", "open:0", "open:1", "action:2", "policy:1", "recall:3"];
+    // entry cases: kind and callee name first, so that the context mostly matches
+    let ekind = r.below(4); // 0 action, 1 policy, 2 seal, 3 open
+    let ename = r.below(4) as usize;
+    if entry && !r.chance(1, 8) {
+        let c = ["action", "policy", "seal", "open"][ekind as usize];
+        let n = if r.chance(1, 10) { r.below(4) as usize } else { ename };
+        lines.push(format!("new {c}:{n}"));
+    } else {
+        lines.push(format!("new {}", r.pick(&ctxs)));
+    }
     let mut g = G { r, sdefs: vec![], fdefs: vec![], plen: 0 };
     // struct definitions: names 0..3, fields 8..15
     let ns = g.r.below(4) as usize;
@@ -1501,6 +1782,68 @@ fn gen_setup(r: &mut Rng) -> (Vec<String>, Vec<(usize, Vec<(usize, TypeKind)>, V
     let mut prog: Vec<Instruction> = vec![];
     let target_len = 1 + g.r.below(24) as usize;
     g.plen = target_len;
+    // ---- entry call: definitions, label, arguments
+    let mut entry_req: Option<Vec<String>> = None;
+    if entry {
+        let addr = match g.r.below(10) {
+            0 => target_len + 3,
+            1 => usize::MAX,
+            _ => g.r.below(target_len as u64) as usize,
+        };
+        let lt = ["Action", "CommandPolicy", "CommandSeal", "CommandOpen"][ekind as usize];
+        if !g.r.chance(1, 10) {
+            lines.push(format!("label {ename} {lt} {addr}"));
+        }
+        if g.r.chance(1, 6) {
+            // a label of another type / name as a decoy
+            lines.push(format!("label {} {} 0", g.r.below(4), g.r.pick(&["Action", "CommandPolicy", "CommandRecall", "CommandSeal", "CommandOpen", "Function", "Temporary"])));
+        }
+        let call_name = if g.r.chance(1, 12) { g.r.below(5) as usize } else { ename };
+        let e = if ekind == 0 {
+            let np = g.r.below(4) as usize;
+            let params: Vec<(usize, TypeKind)> = (0..np).map(|k| (8 + k, g.ty(1))).collect();
+            if !g.r.chance(1, 10) {
+                lines.push(format!("adef {ename} {}", params.iter().map(|(f, t)| format!("{f}:{}", enc_ty(t))).collect::<Vec<_>>().join(" ")).trim_end().to_string());
+            }
+            let mut args: Vec<Value> = params.iter().map(|(_, t)| g.value_of(t, 2)).collect();
+            match g.r.below(12) {
+                0 => {
+                    args.pop();
+                }
+                1 => args.push(g.value(1)),
+                2 if !args.is_empty() => {
+                    let i = g.r.below(args.len() as u64) as usize;
+                    args[i] = g.value(1);
+                }
+                _ => {}
+            }
+            EntryCall::Action(ident(call_name), args)
+        } else {
+            // the command's fields: those of the struct definition of that name, if any
+            let fields = g.sdefs.iter().find(|d| d.0 == ename).map(|d| d.1.clone()).unwrap_or_default();
+            if ekind == 1 && !g.r.chance(1, 10) {
+                let mut fs = fields.clone();
+                if g.r.chance(1, 10) {
+                    fs.push((15, TypeKind::Int));
+                }
+                lines.push(format!("cdef {ename} {}", fs.iter().map(|(f, t)| format!("{f}:{}", enc_ty(t))).collect::<Vec<_>>().join(" ")).trim_end().to_string());
+            }
+            let as_struct = |v: Value| match v {
+                Value::Struct(s) => s,
+                _ => Struct { name: ident(0), fields: BTreeMap::new() },
+            };
+            let this = as_struct(g.struct_named(call_name, 2));
+            let en = g.r.below(4) as usize;
+            let env = as_struct(g.struct_named(en, 1));
+            let payload = BytesTab::fixed(g.small());
+            match ekind {
+                1 => EntryCall::Policy(this, env),
+                2 => EntryCall::Seal(this, payload),
+                _ => EntryCall::Open(this, payload, env),
+            }
+        };
+        entry_req = Some(enc_entry(&e, &mut bt).split(' ').map(|x| x.to_string()).collect());
+    }
     while prog.len() < target_len {
         if mode < 3 || (mode < 8 && g.r.chance(1, 3)) {
             prog.push(g.any_instr());
@@ -1521,6 +1864,22 @@ fn gen_setup(r: &mut Rng) -> (Vec<String>, Vec<(usize, Vec<(usize, TypeKind)>, V
         g.r.shuffle(&mut extra);
         prog.extend(extra);
     }
+    if entry {
+        // mostly forward control flow, so that most runs end (the pre-simulation budget catches the rest)
+        for (idx, i) in prog.iter_mut().enumerate() {
+            let fwd = |t: &mut Target, r: &mut Rng| {
+                if let Target::Resolved(n) = t {
+                    if *n <= idx && !r.chance(1, 10) {
+                        *n = idx + 1 + r.below(4) as usize;
+                    }
+                }
+            };
+            match i {
+                Instruction::Jump(t) | Instruction::Branch(t) | Instruction::Call(t) | Instruction::Recall(t) => fwd(t, g.r),
+                _ => {}
+            }
+        }
+    }
     for i in &prog {
         lines.push(format!("ins {}", enc_instr(i, &mut bt)));
     }
@@ -1538,7 +1897,7 @@ fn gen_setup(r: &mut Rng) -> (Vec<String>, Vec<(usize, Vec<(usize, TypeKind)>, V
         lines.push(format!("push {}", enc_value(&v, &mut bt)));
     }
     let fdefs = g.fdefs.clone();
-    (lines, fdefs)
+    (lines, fdefs, entry_req)
 }
 
 /// `Machine::from_module` must be total and agree with the directly built machine
@@ -1590,7 +1949,23 @@ fn main() {
             cases.last_mut().unwrap().push(l);
         }
         for c in cases {
-            let setup: Vec<String> = c.iter().filter(|l| !l.starts_with("step")).cloned().collect();
+            let setup: Vec<String> = c.iter().filter(|l| !l.starts_with("step") && !l.starts_with("call ")).cloned().collect();
+            if let Some(call) = c.iter().find(|l| l.starts_with("call ")) {
+                // `call <entry…> [S <io answers…>]*`
+                let toks: Vec<&str> = call.split(' ').skip(1).filter(|x| !x.is_empty()).collect();
+                let mut parts: Vec<Vec<String>> = vec![vec![]];
+                for t in toks {
+                    if t == "S" {
+                        parts.push(vec![]);
+                    } else {
+                        parts.last_mut().unwrap().push(t.to_string());
+                    }
+                }
+                let entry = parts.remove(0);
+                let groups: Vec<String> = parts.iter().map(|g| g.join(" ")).collect();
+                run_entry_case(&mut rec, &setup, &entry, Steps::Replay(groups), &[]);
+                continue;
+            }
             let steps: Vec<String> = c.iter().filter(|l| l.starts_with("step")).cloned().collect();
             // fact schemas are only needed by the generator
             run_case(&mut rec, &setup, Steps::Replay(steps), &[]);
@@ -1604,18 +1979,22 @@ fn main() {
     let budget = args.budget(60, 200);
     for i in 0..cases {
         let mut r = rng.fork();
-        let (lines, fdefs) = gen_setup(&mut r);
+        let entry = i % 4 == 3;
+        let (lines, fdefs, entry_req) = gen_setup(&mut r, entry);
         if i < 2 {
             rec.sample(lines.join(" ; "));
         }
         if i % 10 == 0 {
             check_from_module(&mut rec, &lines);
         }
-        run_case(&mut rec, &lines, Steps::Gen(&mut r, budget), &fdefs);
+        match entry_req {
+            Some(e) => run_entry_case(&mut rec, &lines, &e, Steps::Gen(&mut r, budget), &fdefs),
+            None => run_case(&mut rec, &lines, Steps::Gen(&mut r, budget), &fdefs),
+        }
     }
     // the malformed stream: lines the driver must refuse (never default)
     rec.begin_case();
-    for bad in ["new nowhere", "ins Frobnicate", "ins Const q", "ins Jump 5", "push T1{", "step U2", "step Q1", "glob x u", "sdef 1 2:zz"] {
+    for bad in ["new nowhere", "ins Frobnicate", "ins Const q", "ins Jump 5", "push T1{", "step U2", "step Q1", "glob x u", "sdef 1 2:zz", "label 1 Nope 0", "call action 1 2 i1", "call seal T1{} i3", "adef q"] {
         rec.line(bad, "bad-op");
         rec.count("malformed");
     }
